@@ -91,7 +91,7 @@ def sanitize(sc):
 
 def decorate(scs, *, seed, calls_choices=(("invoke",), ("stream",), ("invoke", "stream"), ("stream", "invoke")),
              snode_frac=0.35, strm_branch_frac=0.3, noid_frac=0.0, state_frac=0.0, fail_variants=False, state_variants=False,
-             delay_frac=0.5, echo_frac=0.0, wrap_frac=0.3, rmax_frac=0.0, anyout_frac=0.0, all_paradigms=False, nilout_frac=0.0, pipe_frac=0.0, dopt_frac=0.0, storefail_frac=0.0, empty_frac=0.0):
+             delay_frac=0.5, echo_frac=0.0, wrap_frac=0.3, rmax_frac=0.0, anyout_frac=0.0, all_paradigms=False, nilout_frac=0.0, pipe_frac=0.0, dopt_frac=0.0, storefail_frac=0.0, empty_frac=0.0, ccb_frac=0.0):
     """Secondary dimensions that TLC does not enumerate are spread deterministically (seeded) over the scenarios."""
     rnd = random.Random(seed)
     for i, sc in enumerate(scs):
@@ -163,6 +163,8 @@ def decorate(scs, *, seed, calls_choices=(("invoke",), ("stream",), ("invoke", "
                 sc["fail"] = [{"n": cand[rnd.randrange(len(cand))], "kind": "empty"}]
                 sc["calls"] = ["stream"]
                 sc.pop("chunks", None)
+        if ccb_frac and sc.get("sub") and sc.get("lower") != "chain" and rnd.random() < ccb_frac:
+            sc["ccb"] = True
         if storefail_frac and not sc.get("noid") and (sc.get("before") or sc.get("after") or sc.get("rerun") or sc.get("sub")) and rnd.random() < storefail_frac:
             sc["storefail"] = True
         if pipe_frac and sc["snodes"] and not sc.get("anyout") and rnd.random() < pipe_frac:
@@ -176,7 +178,7 @@ def decorate(scs, *, seed, calls_choices=(("invoke",), ("stream",), ("invoke", "
                     and n not in sc.get("snodes", []) and not any(f["n"] == n for f in sc.get("fail", []))]
             sc["nilout"] = [n for n in cand if rnd.random() < 0.5]
         sanitize(sc)
-        if fail_variants and sc.get("fail"):
+        if fail_variants and sc.get("fail") and not sc.get("nofv"):
             # spread the failure kinds TLC does not enumerate: a second failing node in parallel, cancellation from inside a node
             r = rnd.random()
             others = [n for n in sc["nodes"] if n != sc["fail"][0]["n"]]
